@@ -10,6 +10,9 @@ _FIELDS = (
 )
 
 
+MAYBE_UNBOUND = "<maybe-unbound>"   # env key: names bound on some but not all of the paths joined so far
+
+
 class Abort(Exception):
     """evaluation of the current statement cannot continue normally"""
 
@@ -48,6 +51,9 @@ class State:
         s = self.copy()
         e = dict(self.env)
         e[name] = val
+        mu = e.get(MAYBE_UNBOUND)
+        if mu and ("const", name) in mu:
+            e[MAYBE_UNBOUND] = mu - {("const", name)}
         s.env = e
         return s
 
@@ -84,6 +90,11 @@ def join(a: State | None, b: State | None) -> State | None:
         return a
     s = State.__new__(State)
     s.env = _union_map(a.env, b.env)
+    if a.env.keys() != b.env.keys():
+        # a local bound on one of the joined paths only: it may be unbound from here on (until it is assigned again)
+        odd = {k for k in a.env.keys() ^ b.env.keys() if isinstance(k, str) and not k.startswith("<")}
+        if odd:
+            s.env[MAYBE_UNBOUND] = s.env.get(MAYBE_UNBOUND, frozenset()) | frozenset(("const", k) for k in odd)
     s.held_must = a.held_must & b.held_must
     s.held_may = a.held_may | b.held_may
     s.facts = a.facts & b.facts
@@ -112,7 +123,7 @@ def guard_key(st):
 class Out:
     """Outcome of executing a statement list."""
 
-    __slots__ = ("normal", "ret", "retval", "raises", "brk", "cont", "parts", "forks", "rparts", "ends")
+    __slots__ = ("normal", "ret", "retval", "raises", "brk", "cont", "parts", "forks", "rparts", "ends", "entry")
 
     def __init__(self, normal=None):
         self.normal = normal
@@ -122,6 +133,7 @@ class Out:
         self.brk = None
         self.cont = None
         self.ends = None    # the un-joined states at the end of a block (exec_block), for correlated continuation
+        self.entry = None   # for the Out of a handler body: the state with which the handler was entered
         self.parts = {}     # "none" / "some" -> (state, values): returns partitioned by None-ness
         self.forks = None   # list of states when the statement forks (see Interp.st_Assign)
         self.rparts = {}    # label -> {guard-context key -> state}: raises kept apart per guard context
